@@ -42,3 +42,11 @@ PROPS = {
         "assumptions": [],
     },
 }
+
+
+# further properties / engines are registered by registry_*.py fragments (each defines PROPS and optionally ENGINES)
+import glob as _glob, os as _os, importlib as _importlib
+for _p in sorted(_glob.glob(_os.path.join(_os.path.dirname(_os.path.abspath(__file__)), "registry_*.py"))):
+    _m = _importlib.import_module(_os.path.basename(_p)[:-3])
+    PROPS.update(getattr(_m, "PROPS", {}))
+    ENGINES.extend(getattr(_m, "ENGINES", []))
